@@ -210,4 +210,34 @@ example :
   · simp [decTy, decBody, decFields, decPrim, Ty.accepts, Ty.outerTags, Ty.tags, PrimTy.univNum, Tag.same,
       TLV.tag, Except.map]
 
+/-! ### at the source level: the length block under a codec without indefinite lengths -/
+
+/-- **the indefinite-length marker is refused at the source level**: the translated `stDecodeLength` block with
+    `supportIndefLength = False` (what the DER `SingleItemDecoder` declares; `Generated` carries the flag) raises the
+    library's error on the first length octet `80`, whatever follows - and with the flag on (BER, CER) answers -1 -/
+theorem source_der_refuses_indefinite_length (enc : Py.Tup) :
+    GenK.decodeLength false 128 enc = .error (.lib "PyAsn1Error") ∧ GenK.decodeLength true 128 enc = .ok (-1) :=
+  ⟨rfl, rfl⟩
+
+/-- and under that flag the block never answers a negative length: whatever it accepts - any first octet, any octets
+    after it - is a definite length -/
+theorem source_der_lengths_are_definite (b : UInt8) (rest : Bytes) (r : Int)
+    (h : GenK.decodeLength false (b.toNat : Int) (Kernels.bytesInts (rest.take (b.toNat % 128))) = .ok r) : 0 ≤ r := by
+  rw [Kernels.decodeLength_kernel false b rest] at h
+  cases hd : decodeLength (b :: rest) with
+  | error e => rw [hd] at h; simp [Kernels.liftDecLen] at h
+  | ok p =>
+    obtain ⟨l, rem⟩ := p
+    rw [hd] at h
+    cases l with
+    | definite n =>
+      simp only [Kernels.liftDecLen] at h
+      split at h
+      · simp at h
+      · simp only [Except.ok.injEq] at h
+        omega
+    | indefinite => simp [Kernels.liftDecLen] at h
+
+example : GenK.decodeLength false 0x81 [0x05] = .ok 5 := by rfl
+
 end Asn1.C15
